@@ -456,6 +456,7 @@ func (p *parser) InstantiateGenericFunction(genericFunc *ast.FuncDecl, genericTy
 		currentFunction:       &decl,
 		isCurrentFunctionBool: ddptypes.Equal(decl.ReturnType, ddptypes.WAHRHEITSWERT),
 		Operators:             context.Operators,
+		predefinedModules:     p.predefinedModules,
 	}
 	// prepare the resolver and typechecker with the inbuild symbols and types
 	declParser.resolver = resolver.New(declParser.module, declParser.Operators, declParser.errorHandler, &declParser.panicMode)
